@@ -153,6 +153,8 @@ pub struct Shared {
     /// number of connections with a reply received and not yet ended by the client (C15)
     pub held: AtomicU32,
     pub max_held: AtomicU32,
+    /// client ends of connections that the server has ended and whose clients never close them
+    pub lingering: StdMutex<Vec<Box<dyn std::any::Any + Send>>>,
 }
 
 impl Shared {
@@ -474,6 +476,16 @@ impl Cli {
                         ep.reset();
                     }
                 }
+                CStep::CloseUnlessEnded => {
+                    self.mark_ended();
+                    if self.eof || self.reset {
+                        if let Some(ep) = self.ep.take() {
+                            sim.probe("client_leaves_socket_open_after_server_ended_the_connection");
+                            self.sh.lingering.lock().unwrap().push(Box::new(ep));
+                        }
+                    }
+                    self.ep = None;
+                }
                 CStep::ReadToEof => self.pump(&|c: &Cli| c.eof || c.reset),
                 CStep::ReadFor(us) => {
                     self.deadline = Some(sim.now_ns() + us * 1000);
@@ -557,6 +569,7 @@ pub fn start_server(ctx: &mut Ctx, scn: &NetScn, h: &bc::Handle) -> Srv {
         alive_at_return: AtomicU32::new(0),
         held: AtomicU32::new(0),
         max_held: AtomicU32::new(0),
+        lingering: StdMutex::new(Vec::new()),
     });
     let rt = tokio::runtime::Builder::new_multi_thread().worker_threads(scn.workers.max(1)).enable_all().build().expect("runtime");
     let kv = Kv { inner: h.clone(), ctl, depth: 0, conn: 0 };
